@@ -4,7 +4,7 @@ import sanit
 
 def run(drv, seed):
     extra, viol, inc = {}, [], []
-    for fn in (lambda: sanit.cachegrind_scaling(drv, n_small=4000, factor=4, deep=True), lambda: sanit.miri(drv, "C19", seed, nproc=8, per=30, many_seeds=0)):
+    for fn in (lambda: sanit.cachegrind_scaling(drv, n_small=4000, factor=4, deep=True, builds=("rel-plain", "rel-ms")), lambda: sanit.miri(drv, "C19", seed, nproc=8, per=30, many_seeds=0)):
         e, v, i = fn()
         extra.update(e)
         viol += [(b, dict(x, sig=x["sig"].replace("C19.", "C01."), rule=x["rule"].replace("C19.", "C01."))) for b, x in v]
@@ -13,5 +13,6 @@ def run(drv, seed):
 
 
 def quick(drv, seed):
-    """Quick tier: instruction-count scaling on every 4th family (deterministic, ~5 s)."""
-    return sanit.cachegrind_scaling(drv, n_small=1500, factor=4, step=4)
+    """Quick tier: instruction-count scaling of all families on the macro_sep release build
+    (a superset of the default configuration's code paths); deterministic, ~10 s."""
+    return sanit.cachegrind_scaling(drv, n_small=1000, factor=4, step=1, builds=("rel-ms",))
